@@ -12,7 +12,8 @@ from .common import DIMSETS, sym_mesh
 
 META = dict(
     bounds=dict(
-        quick=dict(kernel_line_length="1..7, all 2^L validity patterns, both orders",
+        quick=dict(also="open lines under bc='neumann' / 'dirichlet' / rings along other axes with axis names that are letters of those words; integer-typed data (native); cells masked in place between two derivatives",
+                   kernel_line_length="1..7, all 2^L validity patterns, both orders",
                    field_diff="ndim 1..3, n<=4 on the differentiated axis, <=2 elsewhere, nvdim 1..2, all validity patterns "
                               "(<=64 per mesh), open and periodic, restrict2valid on/off; periodic rings 1..5"),
         thorough=dict(kernel_line_length="1..10", field_diff="as quick plus n<=5, 4-d meshes, rings 1..6"),
